@@ -129,6 +129,16 @@ def replay_per_state(doc, fn, factory=None):
     """rebuild the state through the real API and evaluate fn on it; fn is also evaluated on every state along the history
     first (in one process), so that a defect living in process-wide state -- a module-level memo filled while an earlier
     state was examined -- has the context it needs"""
+    if doc.get("check") in ("op_raised", "unexpected_exception", "long_lived_object_diverges", "model_merge"):
+        # reported while the state set was being built (by the system's own transition), not by the per-state function
+        from .engine import replay_doc
+        if factory is None:
+            kw = dict(doc["system"]["kwargs"])
+            for k in ("values", "props", "forms", "exits"):
+                kw[k] = tuple(kw[k])
+            kw["extra_batches"] = unjson(kw.get("extra_batches") or [])
+            return replay_doc(lambda: HexSys(**kw), doc)
+        return replay_doc(lambda: factory(dict(doc["system"]["kwargs"])), doc)
     outs = []
     for _ in range(2):
         found = set()
